@@ -82,10 +82,9 @@ def built_table():
         t = re.sub(r"\(\*.*?\*\)", "", open(f).read(), flags=re.S)
         n = len(re.findall(r"^\s*(Theorem|Lemma|Corollary|Example|Fact|Proposition)\s", t, flags=re.M))
         mods = []
-        for imp in re.findall(r"Require Import ([^.]*(?:\.[A-Za-z_0-9]+)*[^.]*)\.\s", t):
-            for w in imp.split():
-                if w.startswith(("Model.", "Proofs.", "Gen.")) and w not in mods:
-                    mods.append(w)
+        for w in re.findall(r"\b((?:Model|Proofs|Gen)\.[A-Za-z_0-9]+)", t):
+            if w not in mods:
+                mods.append(w)
         lines = 0
         for m in mods:
             pth = "%s/coq/%s.v" % (ROOT, m.replace(".", "/"))
